@@ -378,11 +378,16 @@ class Check(common.Check):
         # every well-formed graph function compiles: the constructor forms (default arguments, or one signal)
         # that compile on the reference tree still compile
         import json as _json
-        ref = {(a, b) for a, b, _ in _json.loads((common.VERIF / 'harness/c01_sweep_ref.json').read_text())}
-        now = {(r[0], r[1]) for r in sw}
-        for name, ctor in sorted(ref - now):
-            out.append({'what': f'{name}.{ctor}(…) with default arguments (or one signal of its own rate) no longer compiles',
-                        'signature': f'c01:valid-rejected:{name}', 'case': {'class': name, 'ctor': ctor}})
+        order = {'none': 0, 'sig': 1, 'buf': 2, 'chain': 3}
+        ref = {(a, b): c for a, b, c in _json.loads((common.VERIF / 'harness/c01_sweep_ref.json').read_text())}
+        now = {(r[0], r[1]): r[2] for r in sw}
+        for (name, ctor), kind in sorted(ref.items()):
+            got = now.get((name, ctor))
+            if got is None or order.get(got, 9) > order.get(kind, 9):
+                form = {'none': 'with its default arguments', 'sig': 'with one signal of its own rate',
+                        'buf': 'with a local buffer', 'chain': 'with an FFT chain'}[kind]
+                out.append({'what': f'{name}.{ctor}(…) {form} no longer compiles',
+                            'signature': f'c01:valid-rejected:{name}', 'case': {'class': name, 'ctor': ctor, 'args': kind}})
         for name, ctor, argkind, status, want, rates in sw:
             if status == 'ok' and want is not None and rates and any(r != want for r in rates):
                 out.append({'what': f'{name}.{ctor}(...) is emitted with rate {rates}, created at rate {want}',
